@@ -135,6 +135,9 @@ func (it *Interp) setup() {
 			return "[object Null]"
 		}
 		o := it.toObject(this)
+		if o == it.GlobalObj {
+			panic(&abort{"class name of the global object"}) // host-defined ("[object global]")
+		}
 		tag := "Object"
 		switch o.class {
 		case "Array", "Function", "Error", "Boolean", "Number", "String", "Arguments":
@@ -492,6 +495,17 @@ func (it *Interp) callFunction(f *Object, this Value, args []Value, newTarget *O
 			return Undefined
 		}
 		return fd.native(it, this, args, newTarget)
+	}
+	if Known.SurplusArgs && fd.node != nil && len(args) > len(fd.node.L) {
+		rest := false
+		for _, prm := range fd.node.L {
+			if prm.K == KRest {
+				rest = true
+			}
+		}
+		if !rest {
+			it.trap(true, "C02-surplus-args-spill")
+		}
 	}
 	isClass := fd.kind == fnClassBase || fd.kind == fnClassDerived
 	if newTarget == nil && isClass {
